@@ -161,6 +161,17 @@ Theorem C15_rename_empty_name_upstream_refuted :
 Proof. exact (conj f91_unfixed (proj1 f91_fixed)). Qed.
 Print Assumptions C15_rename_empty_name_upstream_refuted.
 
+(* (7 d) A request hit by a storage fault — the leaseholder's engine cannot persist a channel's
+   meta file — issued in a transaction: in the situations the model decides (every entry leased to
+   the faulty node, request otherwise acceptable; the rest is flagged) it fails and every metadata
+   row and every engine is exactly as before. *)
+Theorem C15_faulted_request_no_effect : forall validate s o s' r,
+  match o with FaultedCreate _ _ _ | FaultedRename _ _ _ _ => True | _ => False end ->
+  step true validate s o = (s', r) -> s_amb s' = false ->
+  r.1 = EFault /\\ s_tab s' = s_tab s /\\ s_eng s' = s_eng s.
+Proof. exact faulted_no_effect. Qed.
+Print Assumptions C15_faulted_request_no_effect.
+
 (* The pinned upstream tree breaks (7) with one successful delete of a leased virtual channel
    (finding F9, fixed by a4733ea): the deleted key stays in use in the engine. On the current tree
    the same history is consistent and the key is gone. *)
